@@ -606,6 +606,17 @@ def _drop_zero(p, Z):
     return Poly({k: v for k, v in p.t.items() if not any(a in Z for a in k)})
 
 
+def _places_of(x):
+    if isinstance(x, dict):
+        if "local" in x and "proj" in x:
+            yield x
+        for v in x.values():
+            yield from _places_of(v)
+    elif isinstance(x, list):
+        for v in x:
+            yield from _places_of(v)
+
+
 def r_layout(f):
     R = Result("R-LAYOUT")
     setup_layout(f)
@@ -613,19 +624,37 @@ def r_layout(f):
     nfun = nacc = ninc = 0
     for b in f.fn_bodies:
         kind = kind_of(b.impl_self or "")
-        if b.name not in TARGETS or kind is None or kind.split("::")[-1] not in ARRAY_KINDS or b.kind != "AssocFn":
+        if kind is None or kind.split("::")[-1] not in ARRAY_KINDS or b.kind != "AssocFn":
             continue
+        extra_fn = False
+        if b.name not in TARGETS:
+            # any further method of a view type that reads the backing slice itself (an override of a provided method, a new
+            # accessor): judged by the same lemmas when the evaluator can follow it, listed as undecided otherwise.  The owned
+            # array's other methods (insert / remove / conversions ..) belong to the shape / raw-bounds engines.
+            knd0 = kind.split("::")[-1]
+            if knd0 == "TooDee" or b.d.get("derived"):
+                continue
+            di = LAYOUT[kind].index("data") if "data" in LAYOUT.get(kind, []) else None
+            if di is None or not any(pl["local"] == 1 and any(pe["k"] == "field" and pe["i"] == di for pe in pl["proj"]) for bl in b.blocks for pl in _places_of([bl["stmts"], bl["term"]])):
+                continue
+            if b.name in ("data", "data_mut", "num_cols", "num_rows", "stride", "bounds", "size", "is_empty", "serialize", "fmt", "into_iter", "from"):
+                continue
+            if b.arg_count < 1 or kind_of(b.locals[1]) != kind:
+                continue          # not a method on the view itself (conversions are R-CONV's)
+            extra_fn = True
         if kind.split("::")[-1] == "TooDee" and b.name == "new":
             continue          # resize_with constructor: R-ZERO / K_OVF decide it
         unsafe_fn = b.d.get("unsafe", False)
         try:
             sym, res = analyse(allb, b.d)
         except Inconclusive as e:
-            ninc += 1
+            if not extra_fn:
+                ninc += 1
             R.inconc(b.ident, "engine inconclusive: %s" % e)
             continue
         except (KeyError, IndexError, TypeError, AttributeError, RecursionError) as e:
-            ninc += 1
+            if not extra_fn:
+                ninc += 1
             R.inconc(b.ident, "engine error %s: %r" % (type(e).__name__, e))
             continue
         nfun += 1
@@ -691,6 +720,17 @@ def r_layout(f):
                     ((same(touched[0][0], pn_[0]) and same(touched[1][0], pn_[1])) or (same(touched[0][0], pn_[1]) and same(touched[1][0], pn_[0])))
                 if not rows_ok:
                     bad.append((("mutate", "swap_rows-rows", None, "rows %s" % ", ".join("row %r cols %r..+%r" % tt for tt in touched), b.line), P.conds))
+            if b.name == "row_pair_mut" and oc[0] == "ret":
+                # an implementor's own row_pair_mut returns exactly rows (r1, r2), whole and in argument order
+                pn_ = [Poly.atom(nm_) for loc_, nm_ in sorted(b.param_names().items()) if b.locals[loc_] == "usize"]
+                rv = oc[1]
+                if isinstance(rv, Tup) and len(rv.f) == 2 and all(isinstance(x, Slice) for x in rv.f) and len(pn_) == 2:
+                    nacc_fn += 1
+                    cc = saturate(add_invariant(P.conds, sym))
+                    def same_(x, y): return x == y or decide(cc, Cond("==", x - y)) is True
+                    okp = all(same_(x.lo, pn_[i] * sym["S"]) and same_(x.hi - x.lo, sym["C"]) for i, x in enumerate(rv.f))
+                    if not okp:
+                        bad.append((("mutate", "row_pair_mut-rows", None, "returns (%r, %r)" % (rv.f[0], rv.f[1]), b.line), P.conds))
             # returned aggregate literals
             if oc[0] == "ret" and isinstance(oc[1], Obj) and oc[1].kind in LAYOUT:
                 okl, what = literal_ok(oc[1].kind, oc[1].fields, LAYOUT[oc[1].kind], sym, P.conds)
@@ -739,8 +779,17 @@ def r_layout(f):
     for b in f.fn_bodies:
         if (b.self_head or "").replace("&mut ", "").replace("&", "") not in ("TooDeeView", "TooDeeViewMut"):
             continue
+        dxv = None
         for bi, t, fn in b.calls():
             if fn and re.match(r"^core::slice::<impl \[T\]>::(chunks_exact|chunks_exact_mut|rchunks_exact|rchunks_exact_mut|array_chunks)", fn["path"]):
+                # only the view's own backing slice is strided: a source slice handed in by the caller is not
+                from .dfx import Dfx, walk, strip as dstrip
+                dxv = dxv or Dfx(b)
+                recv = dxv.expr(t["args"][0]) if t["args"] else ("?",)
+                from_self = any(x[0] == "field" and dstrip(x[1]) in (("param", 1), ("deref", ("param", 1))) for x in walk(recv))
+                from_other_param = any(x[0] == "param" and x[1] != 1 for x in walk(recv))
+                if from_other_param and not from_self:
+                    continue
                 R.inst(b.ident, "no chunks_exact* over the view's strided backing slice", False)
                 R.fail(b.ident, "chunks_exact", "%s splits the view's backing slice with %s: that slice ends with the last row (length (rows-1)*stride + cols), so for a window narrower than its parent the final, shorter chunk - the last row - is silently skipped" % (b.ident, fn["name"]), b.where(t["span"]))
     R.require_floor(nfun, 30, "accessor functions")
